@@ -413,12 +413,13 @@ impl<'r, T: Reg> Drv<'r, T> {
             format!("[{}]", t.split('\n').map(|l| format!("\"{}\"", esc(l))).collect::<Vec<_>>().join(","))
         };
         self.r.line(format!(
-            "{{\"ev\":\"debug\",\"slot\":\"{}\",\"alt\":{},\"panic\":{},\"lines\":{},\"parts\":[{}]}}",
+            "{{\"ev\":\"debug\",\"slot\":\"{}\",\"alt\":{},\"panic\":{},\"lines\":{},\"parts\":[{}],\"plain\":[{}]}}",
             sl(s),
             alt,
             panic,
             lines(&text),
-            parts.iter().map(|p| lines(p)).collect::<Vec<_>>().join(",")
+            parts.iter().map(|p| lines(p)).collect::<Vec<_>>().join(","),
+            T::meta().iter().map(|m| format!("\"{}\"", m.name)).collect::<Vec<_>>().join(",")
         ));
     }
     // shard rotation point: only where the driver re-initialises both slots anyway
